@@ -110,6 +110,8 @@ impl Engine for HrLiveEngine {
                 let t = *rng.pick(&[1usize, 2, 2, 3, 4, 4, 6, 8]);
                 let t = if thorough && rng.chance(1, 4) { 16 } else { t };
                 let calls = *rng.pick(if thorough { &[5usize, 50, 400, 3000, 20000][..] } else { &[5usize, 50, 400, 3000][..] });
+                // every answer wakes every waiting caller: keep the total number of calls of a case bounded
+                let calls = if t * calls > 50_000 { 50_000 / t } else { calls };
                 let loaders = rng.below(3);
                 let events = rng.below(2);
                 vec![format!("hr.conc {t} {calls} {loaders} {events}")]
